@@ -63,6 +63,17 @@ theorem load_is_pure (fs : List PlatformFile) (hist hist' : List LoadEvent) (fil
     ∧ (loadAfter fs hist file variant).1 = loadDef fs file variant
     ∧ (loadAfter fs hist file variant).2 = liveInstances fs hist := ⟨rfl, rfl, rfl⟩
 
+/-- an embedded name resolves to the embedded definition whatever the caller's working directory,
+file system or network holds under that name -/
+theorem embedded_name_ignores_file_system {α : Type} (embedded fs fs' : String → Option α) (name : String)
+    (d : α) (h : embedded name = some d) :
+    resolveSource embedded fs name = some d ∧ resolveSource embedded fs name = resolveSource embedded fs' name := by
+  simp [resolveSource, h]
+
+/-- … and the source consults its sources in that order: the embedded lookup comes before the
+file / URL lookup in `loadPlatformDefinition` (go/ast fact) -/
+theorem embedded_lookup_first : loadLookupOrder = ["assets", "file-or-url"] := by decide +kernel
+
 /-- the source keeps no state between loads: package platform declares no package-level variable
 that holds a map, slice, pointer or sync primitive or that a function assigns (go/ast fact) -/
 theorem load_path_has_no_package_state : packageState = [] := by decide +kernel
